@@ -110,3 +110,42 @@ def shaped_models(sess, name, constraints, q, L, tries=("axis", "half", "free"),
         if r == z3.sat:
             return s.model(), how
     return None, None
+
+
+def sample_witness(paths, inp, tries=10, seed=0, timeout_ms=2000, want=1, skip=lambda p: False):
+    """Reachability witnesses by concretisation: fix q (random rational unit quaternion), L (small
+    integers) and the parameters; the input then satisfies exactly one path condition, and z3 only
+    has to complete the remaining (UF-result) variables. Returns list of (path index, model)."""
+    import random
+    from fractions import Fraction
+
+    rng = random.Random(seed)
+    found = []
+    used = set()
+    for _ in range(tries):
+        a, b, c, d = (Fraction(rng.randint(-6, 6), rng.randint(1, 4)) for _ in range(4))
+        nn = a * a + b * b + c * c + d * d
+        if nn == 0:
+            continue
+        qv = [(a * a - b * b - c * c - d * d) / nn, 2 * a * b / nn, 2 * a * c / nn, 2 * a * d / nn]
+        fix = []
+        if inp.get("q") is not None:
+            fix += [sq.z3() == z3.Q(v.numerator, v.denominator) for sq, v in zip(inp["q"], qv)]
+        fix += [cell.z3() == rng.randint(-3, 3) for cell in np.asarray(inp["L"], dtype=object).flat]
+        fix += [inp["p"].z3() == z3.Q(3, 2), inp["n"].z3() == z3.Q(7, 2), inp["lam"].z3() == 5]
+        for k, p in enumerate(paths):
+            if k in used or p.exc is not None or skip(p):
+                continue
+            s = z3.Solver()
+            s.set("timeout", timeout_ms)
+            for c_ in fix:
+                s.add(c_)
+            for c_ in p.pc:
+                s.add(c_)
+            if s.check() == z3.sat:
+                found.append((k, s.model()))
+                used.add(k)
+                break
+        if len(found) >= want:
+            break
+    return found
